@@ -199,14 +199,24 @@ class Interp:
             self.raise_(exc, node, op, operand)
 
     # ------------------------------------------------------------------ calls
-    def call_func(self, f, args, kwargs=None, node=None, self_av=None, present=frozenset(), sib=None):
+    def call_func(self, f, args, kwargs=None, node=None, self_av=None, present=frozenset(), sib=None, closure_env=None):
         """Analyse package function f on abstract arguments. Returns AV (for generators: a 'gen' of yielded values)."""
         kwargs = kwargs or {}
         if len(self.stack) >= MAX_DEPTH or self.stack.count(f) >= 2:
             self.unmodelled.append("recursion/inlining bound at %s" % f.qual)
             return AV(["opaque"])
+        # is this call made for some inputs only (inside an if / loop / handler of the caller, or of a caller further up)?
+        cstack = self.__dict__.setdefault("_cond_ctx", [])
+        try:
+            called_conditionally = node is not None and self.cur_func is not None and not isinstance(self.cur_func.node, ast.Lambda) and (
+                self._always_reports(self.cur_func, node) or bool(cstack and cstack[-1]))
+        except Exception:
+            called_conditionally = True
+        # a helper whose result flows into the caller's report: the caller's call site decides
+        called_conditionally = bool(called_conditionally)
         key = (f.qual, tuple(a.describe() for a in args), tuple(sorted((k, v.describe()) for k, v in kwargs.items())), tuple(sorted(present, key=repr)),
-               tuple(sorted(((k, (v[0].describe() if v[0] is not None else None, v[1])) for k, v in (sib or {}).items()), key=repr)))
+               tuple(sorted(((k, (v[0].describe() if v[0] is not None else None, v[1])) for k, v in (sib or {}).items()), key=repr)), called_conditionally,
+               tuple(sorted((k, v.describe()) for k, v in (closure_env or {}).items())) if closure_env else None)
         if key in self.memo:
             ret, effects = self.memo[key]
             self.collectors[-1].extend(effects)
@@ -232,6 +242,10 @@ class Interp:
         self.stack.append(f)
         self.cur_func = f
         self.collectors.append([])
+        cstack.append(called_conditionally)
+        if closure_env:
+            for k, v in closure_env.items():
+                st.env.setdefault(k, v)
         try:
             for p in params + [x.arg for x in a.kwonlyargs]:
                 if p in bound:
@@ -258,6 +272,7 @@ class Interp:
             effects = self.collectors.pop()
             self.stack.pop()
             self.cur_func = saved_func
+            cstack.pop()
         # contextmanager generators behave like functions returning a context manager
         self.memo[key] = (ret, effects)
         self.collectors[-1].extend(effects)
@@ -1199,6 +1214,14 @@ class Interp:
             return AV(["dict"], vals=vals, nonempty=True, const=("keys", frozenset(k.value for k in expr.keys)))
         if isinstance(expr, ast.Dict) or (isinstance(expr, ast.Call) and norm(expr.func) == "dict"):
             return AV(["dict"], vals=AV(["opaque"]))
+        if isinstance(expr, ast.Call):
+            # NAME = factory(...): a package function whose every return hands back its one nested def (relevance = by_relevance())
+            F = self.prog.resolve_expr(mod, expr.func)
+            if isinstance(F, Func):
+                inner = [x for x in F.nested.values() if isinstance(x, Func)]
+                rets = [n for n in walk_body(F) if isinstance(n, ast.Return)]
+                if len(inner) == 1 and rets and all(isinstance(x.value, ast.Name) and x.value.id == inner[0].name for x in rets):
+                    return AV(["func"], const=("func", inner[0]))
         if isinstance(expr, ast.Call) and norm(expr.func).endswith("by_relevance"):
             return AV(["func"])
         if isinstance(expr, ast.Attribute):
@@ -1335,17 +1358,95 @@ class Interp:
             return True
         return False
 
+    def _always_reports(self, f, astnode):
+        """Does every path from the statement that holds `astnode` to a normal exit of f pass a `yield` or a `raise` (the statement
+        itself included)?  Text built there is part of reporting something; text built on a path that can end without a report is
+        built for instances there is nothing to say about."""
+        from .cfg import cfg_of, node_exprs, walk_expr
+        cache = self.__dict__.setdefault("_reports", {})
+        if f not in cache:
+            cfg = cfg_of(f)
+            node_of = {}
+            for n in cfg.live:
+                for e in node_exprs(n):
+                    for sub in walk_expr(e):
+                        node_of.setdefault(id(sub), n)
+                if n.ast is not None:
+                    for sub in ast.walk(n.ast) if n.kind in ("stmt", "yield", "raise", "return") else [n.ast]:
+                        node_of.setdefault(id(sub), n)
+            cache[f] = (cfg, node_of, {})
+        cfg, node_of, memo = cache[f]
+        start = node_of.get(id(astnode))
+        if start is None:
+            return False
+        if start.id not in memo:
+            ok, seen, todo = True, set(), [start]
+            while todo and ok:
+                n = todo.pop()
+                if n.id in seen:
+                    continue
+                seen.add(n.id)
+                if n.kind in ("yield", "raise"):
+                    continue
+                if n.kind == "exit":
+                    if n.info in ("return", "fall"):
+                        ok = False
+                    continue
+                if n.kind == "return":
+                    ok = False
+                    continue
+                todo.extend(y for (l, y) in n.succ if l != "exc")
+            memo[start.id] = ok
+        return memo[start.id]
+
+    def _conditional_nodes(self, f):
+        """ids of the nodes of f that sit inside the body of an if / loop / handler / conditional expression (run for some inputs only)"""
+        cache = self.__dict__.setdefault("_cond_nodes", {})
+        if f not in cache:
+            out = set()
+            def mark(nodes):
+                for n in nodes:
+                    for x in ast.walk(n):
+                        out.add(id(x))
+            for n in ast.walk(f.node):
+                if isinstance(n, (ast.If, ast.While)):
+                    mark(n.body)
+                    mark(n.orelse)
+                elif isinstance(n, (ast.For, ast.AsyncFor)):
+                    mark(n.body)
+                    mark(n.orelse)
+                elif isinstance(n, ast.Try):
+                    for h in n.handlers:
+                        mark(h.body)
+                    mark(n.orelse)
+                elif isinstance(n, ast.IfExp):
+                    mark([n.body, n.orelse])
+                elif isinstance(n, ast.BoolOp):
+                    mark(n.values[1:])
+            cache[f] = out
+        return cache[f]
+
     def to_text(self, av, node, how):
         """str()/repr()/%r/%s/format of a value: since Python 3.11 converting an int of more than sys.int_max_str_digits (4300)
         digits to decimal text raises ValueError -- also from inside the repr of a list or dict that holds one."""
-        if av is not None and self.cur_func is not None and self.cur_func.qual == "_format.FormatChecker.check" and self.checkers_pass_non_strings():
+        try:
+            conditional = self.cur_func is not None and not isinstance(self.cur_func.node, ast.Lambda) and self._always_reports(self.cur_func, node)
+        except Exception:
+            conditional = True      # no CFG for this function: no claim
+        # inside a helper the text flows back to the caller: then the caller's call site decides
+        conditional = conditional or bool(self.__dict__.get("_cond_ctx") and self._cond_ctx[-1])
+        if av is not None and conditional and self.cur_func.qual == "_format.FormatChecker.check" and self.checkers_pass_non_strings():
             # FormatChecker.check words its message only after the registered function answered falsy or raised, which every
             # built-in one does for strings only (each returns True for a non-string before looking at it: R12.5, re-derived here);
             # a custom function rejecting numbers is the caller's, outside the package
             av = av.only(["str"]) if "str" in av.kinds else av
         if av is not None:
+            # the pinned tree words its messages only where an error is reported (F-18, known); text built for *every* instance --
+            # before the verdict is known -- makes valid instances raise as well and is filed under its own category
+            what = "text of an integer of unbounded size" if conditional or self.cur_func is None else \
+                "text of an integer of unbounded size built whether or not there is anything to report"
             self.need(not self.may_hold_big_int(av), "ValueError", node,
-                      "text of an integer of unbounded size (%s: int -> str conversion refuses more than 4300 digits)" % how, av.describe())
+                      "%s (%s: int -> str conversion refuses more than 4300 digits)" % (what, how), av.describe())
 
     def binop(self, op, l, r, node, s):
         num = frozenset(["int", "float", "bool"])
